@@ -8,17 +8,18 @@ ALL_TYPES = ["Frame", "PeerHello", "StreamOpen", "StreamOpenAck", "StreamOpenErr
              "ICMPOpen", "ICMPOpenAck", "ICMPOpenErr", "ICMPEcho", "ICMPClose",
              "SleepCommand", "WakeCommand", "QueuedState"]
 ACKS = ["StreamOpenAck", "UDPOpenAck"]
-DEVS = {  # deviation -> (types that exhibit it, invariant that must catch it)
-    "DevQueuedOffset33": (["QueuedState"], "RoundTrip"),
-    "DevAckMinLen44": (ACKS, "RoundTrip"),
-    "DevPreallocFromCount": (["QueuedState"], "AllocProportional"),
-    "DevNoLegacyTail": (["NodeInfoAdvertise"], "RoundTrip"),
+DEVS = {  # deviation -> (types that exhibit it, invariants that may catch it first)
+    "DevQueuedOffset33": (["QueuedState"], ("RoundTrip",)),
+    "DevAckMinLen44": (ACKS, ("RoundTrip",)),
+    "DevPreallocFromCount": (["QueuedState"], ("AllocProportional",)),
+    "DevNoLegacyTail": (["NodeInfoAdvertise"], ("RoundTrip",)),
+    "DevStreamNoMaxCheck": (["Frame"], ("StreamAgrees", "StreamAllocBounded")),
 }
 ELEM_SIZE = [120, 72, 288]   # Codec.tla ElemSize
 HFILES = ["common/common_test.go.tmpl", "protocol/codec_test.go"]
 
 
-def cfg(types, dev=(), emit=True, wide=False, invs="RoundTripEmit AllocEmit"):
+def cfg(types, dev=(), emit=True, wide=False, invs="RoundTripEmit AllocEmit StreamEmit"):
     return ("CONSTANTS Types = {%s} Dev = {%s} Emit = %s Wide = %s\nINIT Init\nNEXT Next\nINVARIANTS %s\n" % (
         ",".join('"%s"' % t for t in types), ",".join('"%s"' % d for d in dev),
         "TRUE" if emit else "FALSE", "TRUE" if wide else "FALSE", invs))
@@ -26,6 +27,10 @@ def cfg(types, dev=(), emit=True, wide=False, invs="RoundTripEmit AllocEmit"):
 
 def vecs_of(res):
     return [o for t, o in res.prints if t == "VEC"], [o for t, o in res.prints if t == "HOSTILE"]
+
+
+def streams_of(res):
+    return [o for t, o in res.prints if t == "STREAM"]
 
 
 def model(ctx):
@@ -36,7 +41,8 @@ def model(ctx):
     if ideal.violated:
         raise vf.Infra("ideal Codec spec violates %s (specification error)" % ideal.violated)
     vecs, hostile = vecs_of(ideal)
-    if not vecs or not hostile:
+    streams = streams_of(ideal)
+    if not vecs or not hostile or not streams:
         raise vf.Infra("TLC emitted no vectors")
     bad = [v for v in vecs if v["parse"] != "same"]
     if bad:
@@ -44,11 +50,12 @@ def model(ctx):
     caught = {}
     for d, (types, inv) in DEVS.items():
         r = ctx.tlc("Codec", "MCdev.cfg", expect_violation=True, name="codec-" + d,
-                    files={"MCdev.cfg": cfg(types, dev=[d], emit=False, invs="RoundTrip AllocProportional")})
+                    files={"MCdev.cfg": cfg(types, dev=[d], emit=False,
+                                             invs="RoundTrip AllocProportional StreamAgrees StreamAllocBounded")})
         caught[d] = r.violated
-        if r.violated != inv:
+        if r.violated not in inv:
             raise vf.Infra("deviation %s not detected by %s (got %s): vacuous model" % (d, inv, r.violated))
-    return ideal, vecs, hostile, caught
+    return ideal, vecs, hostile, streams, caught
 
 
 _devcache = {}
@@ -66,7 +73,7 @@ def dev_outcomes(ctx, dev):
     return _devcache[dev]
 
 
-def harness(ctx, vecs, hostile):
+def harness(ctx, vecs, hostile, streams):
     inp = os.path.join(ctx.work, "codec_vecs.json")
     if os.environ.get("VERIF_SELFTEST_CORRUPT"):
         # binding self-test: one structural number of one spec layout is wrong -> the run must end as "binding broken"
@@ -75,16 +82,23 @@ def harness(ctx, vecs, hostile):
         run = [r for r in vecs[len(vecs) // 2]["runs"] if r["c"] == "n"][0]
         run["v"] += 1
         ctx.log("SELFTEST: corrupted a length cell of the spec layout of shape %d" % (len(vecs) // 2))
-    vf.write_json(inp, {"vecs": vecs, "hostile": hostile})
+    vf.write_json(inp, {"vecs": vecs, "hostile": hostile, "streams": streams})
     q = ctx.quick()
     env = {"ZZV_IN": inp, "ZZV_MUT": 100 if q else 1500, "ZZV_RAND": 2000 if q else 40000,
            "ZZV_PREFIX_FULL": 1200 if q else 40000, "ZZV_PREFIX_SAMPLE": 100 if q else 1000,
            "ZZV_PREFIX_CELLS": 150 if q else 3000}
-    r = ctx.gotest("protocol", HFILES, "^TestZZVCodec$", env=env, timeout=3000)
+    r = ctx.gotest("protocol", HFILES, "^TestZZVCodec$", env=env, timeout=3000, allow_fail=True)
     summ = r.of("summary")
     if not summ:
+        if r.of("viol"):
+            # the process died (e.g. out of memory) after violations of the real code had been recorded
+            ctx.log("note: codec harness died after %d violation records:\n%s" % (len(r.of("viol")), r.out[-800:]))
+            return None, r.of("viol")
         raise vf.Infra("codec harness produced no summary:\n" + r.out[-3000:])
     summ = summ[0]
+    if summ.get("stream_bind_errors") and not r.of("viol"):
+        raise vf.Infra("binding broken: the frame decode paths differ from the Codec.tla transcription on %d hostile "
+                       "headers (first: %s)" % (summ["stream_bind_errors"], r.of("streambind")[:1]))
     sizes = r.of("sizes")
     if not sizes or sizes[0]["elem"] != ELEM_SIZE:
         raise vf.Infra("Codec.tla ElemSize %s differs from unsafe.Sizeof %s (update the spec constant)" % (
@@ -123,12 +137,15 @@ def classify(ctx, v, vecs):
             dev = "DevAckMinLen44"
     elif cls == "reencode" and ty in ACKS and "too short" in what:
         dev = "DevAckMinLen44"
+    elif cls == "stream" and v.get("path") == "FrameReader.Read" and v.get("claimed_length", 0) > 16384 and (
+            "allocation" in what or "disagree" in what):
+        dev = "DevStreamNoMaxCheck"
     elif cls == "alloc" and ty == "QueuedState":
         # explained by pre-allocation from a count field iff the input claims more entries than it can hold
         dev = "DevPreallocFromCount"
     if dev:
         site = {"DevQueuedOffset33": "DecodeQueuedState", "DevPreallocFromCount": "DecodeQueuedState",
-                "DevAckMinLen44": "Decode" + ty}[dev]
+                "DevAckMinLen44": "Decode" + ty, "DevStreamNoMaxCheck": "FrameReader.Read"}[dev]
         key = "Codec:%s:%s" % (dev, site)
     else:
         short = "".join(ch if ch.isalnum() else "-" for ch in what.split(":")[0])[:48]
@@ -140,4 +157,6 @@ def classify(ctx, v, vecs):
         text += " outcome=" + str(v["outcome"])
     if v.get("alloc"):
         text += " allocated=%s bound=%s" % (v["alloc"], v.get("bound"))
+    if "claimed_length" in v:
+        text += " header claims %s payload bytes" % v["claimed_length"]
     return key, text
